@@ -1,0 +1,143 @@
+//go:build verif
+
+package network
+
+import (
+	"bytes"
+	"fmt"
+	"net"
+	"strings"
+
+	"github.com/icon-project/goloop/common/log"
+	"github.com/icon-project/goloop/module"
+)
+
+// ---- PacketPool ----
+
+func VerifC33PoolPut(p *PacketPool, hash uint64) bool {
+	return p.Put(&Packet{hashOfPacket: hash})
+}
+
+func VerifC33PoolContains(p *PacketPool, hash uint64) bool {
+	return p.Contains(&Packet{hashOfPacket: hash})
+}
+
+// VerifC33PoolState prints cur, the len slice and the size of each bucket
+// (-1 for a nil map).
+func VerifC33PoolState(p *PacketPool) string {
+	p.mtx.RLock()
+	defer p.mtx.RUnlock()
+	var sb strings.Builder
+	fmt.Fprintf(&sb, "cur=%d len=", p.cur)
+	for i, l := range p.len {
+		if i > 0 {
+			sb.WriteByte(',')
+		}
+		fmt.Fprintf(&sb, "%d", l)
+	}
+	sb.WriteString(" size=")
+	for i, m := range p.buckets {
+		if i > 0 {
+			sb.WriteByte(',')
+		}
+		if m == nil {
+			sb.WriteString("-1")
+		} else {
+			fmt.Fprintf(&sb, "%d", len(m))
+		}
+	}
+	return sb.String()
+}
+
+// ---- PeerToPeer.onPacket with stub peers ----
+
+const verifC33Proto = module.ProtocolInfo(0x0500)
+
+type VerifC33Node struct {
+	p2p       *PeerToPeer
+	buf       *bytes.Buffer
+	delivered int
+	last      *Packet
+	lastPeer  *Peer
+}
+
+func VerifC33NewNode(selfID []byte, nb uint8, bl uint16) *VerifC33Node {
+	buf := &bytes.Buffer{}
+	l := log.New()
+	l.SetOutput(buf)
+	l.SetLevel(log.TraceLevel)
+	l.SetConsoleLevel(log.TraceLevel)
+	n := &VerifC33Node{buf: buf}
+	self := &Peer{id: NewPeerID(selfID), netAddress: NetAddress("127.0.0.1:1")}
+	n.p2p = newPeerToPeer("verif", self, nil, nil, l)
+	n.p2p.packetPool = NewPacketPool(nb, bl)
+	return n
+}
+
+func (n *VerifC33Node) Pool() *PacketPool { return n.p2p.packetPool }
+
+// OnPacket builds a stub peer with the given attributes, calls the real
+// onPacket and classifies what happened: "deliver", "close" (peer closed),
+// or "drop:<reason from the log line>".
+func (n *VerifC33Node) OnPacket(peerID []byte, hasProto bool, connType int, role int,
+	src []byte, dest, ttl byte, hasCb bool, hash uint64) string {
+	c1, c2 := net.Pipe()
+	defer c2.Close()
+	p := newPeer(c1, true, "", n.p2p.logger)
+	p.setID(NewPeerID(peerID))
+	p.setConnType(PeerConnectionType(connType))
+	p.setRole(PeerRoleFlag(role))
+	pis := newProtocolInfos()
+	if hasProto {
+		pis.Add(verifC33Proto)
+	}
+	p.setProtocolInfos(pis)
+	if hasCb {
+		n.p2p.onPacketCbFuncs[verifC33Proto.Uint16()] = func(pkt *Packet, p *Peer) {
+			n.delivered++
+			n.last, n.lastPeer = pkt, p
+		}
+	} else {
+		delete(n.p2p.onPacketCbFuncs, verifC33Proto.Uint16())
+	}
+	pkt := &Packet{
+		protocol:     verifC33Proto,
+		subProtocol:  module.ProtocolInfo(0x0100),
+		src:          NewPeerID(src),
+		dest:         dest,
+		ttl:          ttl,
+		hashOfPacket: hash,
+	}
+	n.buf.Reset()
+	before := n.delivered
+	n.p2p.onPacket(pkt, p)
+	closed := p.IsClosed()
+	if !closed {
+		p.Close("verif")
+	}
+	logs := n.buf.String()
+	switch {
+	case n.delivered == before+1 && n.last == pkt && n.lastPeer == p:
+		if closed {
+			return "deliver+close"
+		}
+		return "deliver"
+	case n.delivered != before:
+		return "deliver-wrong"
+	case closed && strings.Contains(logs, "not exists callback function"):
+		return "close-nocb"
+	case closed:
+		return "close"
+	case strings.Contains(logs, "undetermined PeerConnectionType"):
+		return "drop-undetermined"
+	case strings.Contains(logs, "Invalid self-src"):
+		return "drop-self"
+	case strings.Contains(logs, "Invalid 1hop-src"):
+		return "drop-1hop"
+	case strings.Contains(logs, "Not authorized"):
+		return "drop-unauth"
+	case strings.Contains(logs, "Duplicated by footer"):
+		return "drop-dup"
+	}
+	return "drop-unknown"
+}
